@@ -34,3 +34,7 @@ def run(ctx, rep, tier):
         shared.freshness(rep, F, E, G, tag, 'C03.R1f')
     from . import units_rules
     units_rules.c03(ctx, rep)
+    from . import primitives
+    primitives.vector_primitives(rep, ctx.facts('default'), ctx.eff('default'), '', 'C03.R8')
+
+
